@@ -275,4 +275,81 @@ theorem gtt_equal_rows_sound {c : Circuit} (h : WFU c) {gtt : Dict (List V3)} (h
     rw [e1, e2] at hd_eq
     exact ofBool_inj hd_eq
 
+/-- the full assignment computed for the input vector of a valuation is (the embedding of) that valuation -/
+theorem full_is_denotation {c : Circuit} (h : WFU c) {b v : Label → Bool} (hv : IsValB c b v) {d : Asg}
+    (hev : evalFull c ((c.inputs.zip ((c.inputs.map b).map V3.ofBool)).foldl (fun d p => d.set p.1 p.2) []) = .ok d) :
+    ∀ g ∈ c.gates, valOf d g.label = ofBool (v g.label) := by
+  obtain ⟨d', hev', hval, _⟩ := evalFull_spec h ((c.inputs.zip ((c.inputs.map b).map V3.ofBool)).foldl (fun d p => d.set p.1 p.2) [])
+  rw [hev] at hev'
+  cases hev'
+  have hv3 : IsVal3 c (fun x => ofBool (b x)) (valOf d) := by
+    apply isVal3_congr _ hval
+    intro g hgm hty
+    have hin : g.label ∈ c.inputs := (h.inputsOK g.label).mpr ⟨g, hgm, rfl, hty⟩
+    unfold asgFun
+    rw [List.map_map, zip_map_self, get?_foldSet_pairs]
+    simp [hin]
+  exact val3_unique h.toWF hv3 (isVal3_of_isValB hv)
+
+theorem all2_map_eq' {α β γ} {R : α → β → Prop} {f : α → γ} {g : β → γ} :
+    ∀ {l1 : List α} {l2 : List β}, All2 R l1 l2 → (∀ a ∈ l1, ∀ b, R a b → f a = g b) → l1.map f = l2.map g := by
+  intro l1 l2 h
+  induction h with
+  | nil => intro _; rfl
+  | cons h1 _ ih =>
+    intro hR
+    simp only [List.map_cons]
+    rw [hR _ (by simp) _ h1, ih (fun a ha b => hR a (by simp [ha]) b)]
+
+/-- **`get_gates_truth_table()`**: the row of every gate lists its denotation over all input vectors
+in counting order -/
+theorem gatesTruthTable_spec {c : Circuit} (h : WFU c) {gtt : Dict (List V3)} (hg : gatesTruthTable c = .ok gtt)
+    (B V : List Bool → Label → Bool)
+    (hB : ∀ bs ∈ allInputs c.inputs.length, c.inputs.map (B bs) = bs ∧ IsValB c (B bs) (V bs))
+    {l : Label} (hl : l ∈ c.labels) :
+    (gtt.get? l).getD [] = (allInputs c.inputs.length).map (fun bs => ofBool (V bs l)) := by
+  unfold gatesTruthTable at hg
+  simp only [bind, Except.bind] at hg
+  cases hm : (allInputs c.inputs.length).mapM (fun bs =>
+      evalFull c ((c.inputs.zip (bs.map V3.ofBool)).foldl (fun d p => d.set p.1 p.2) [])) with
+  | error e => simp [hm] at hg
+  | ok fulls =>
+    simp only [hm, Except.ok.injEq] at hg
+    subst hg
+    have hall := mapM_all2 _ _ _ hm
+    have hnk : ∀ f ∈ fulls, NodupKeys f := by
+      intro f hf
+      obtain ⟨bs, _, hbs⟩ := all2_mem_right hall f hf
+      exact evalFull_nodupKeys (nodupKeys_foldSet _ _ (by simp [NodupKeys])) hbs
+    rw [rows_spec fulls [] hnk l]
+    simp only [Dict.get?, Option.getD_none, List.nil_append]
+    obtain ⟨gl, hgl, rfl⟩ := List.mem_map.mp hl
+    have hsome : ∀ f ∈ fulls, (f.get? gl.label).isSome = true := by
+      intro f hf
+      obtain ⟨bs, _, hbs⟩ := all2_mem_right hall f hf
+      obtain ⟨d2, hev2, _, hs2⟩ := evalFull_spec h ((c.inputs.zip (bs.map V3.ofBool)).foldl (fun d p => d.set p.1 p.2) [])
+      rw [hbs] at hev2; cases hev2
+      exact hs2 gl hgl
+    have hflat : ∀ (L : List (Dict V3)), (∀ f ∈ L, (f.get? gl.label).isSome = true) →
+        L.flatMap (fun f => (f.get? gl.label).toList) = L.map (fun f => valOf f gl.label) := by
+      intro L
+      induction L with
+      | nil => intro _; rfl
+      | cons f r ih =>
+        intro hs
+        have h1 := hs f (by simp)
+        cases hgf : f.get? gl.label with
+        | none => rw [hgf] at h1; cases h1
+        | some y =>
+          have := ih (fun g hg => hs g (by simp [hg]))
+          simp only [List.flatMap_cons, List.map_cons, hgf, this]
+          simp [valOf, hgf]
+    rw [hflat fulls hsome]
+    symm
+    apply all2_map_eq' hall
+    intro bs hbs d hd
+    obtain ⟨e1, e2⟩ := hB bs hbs
+    have := full_is_denotation h e2 (d := d) (by rw [e1]; exact hd)
+    exact (this gl hgl).symm
+
 end Cirbo
